@@ -9,7 +9,7 @@ var Assumptions = []string{
 }
 
 const gates = "cg.heartbeat,pc.subscribe,pc.resubscribe,pc.redispatch,bc.round,sess.claim"
-const faults = "join-rebalance,join-unknown-member,join-drop,sync-rebalance,sync-unknown-member,sync-illegal-generation,sync-drop,hb-rebalance,hb-unknown-member,hb-illegal-generation,hb-drop,leave-drop,commit-drop,commit-notcoord,commit-missing"
+const faults = "join-rebalance,join-unknown-member,join-drop,sync-rebalance,sync-unknown-member,sync-illegal-generation,sync-notcoord,sync-drop,hb-rebalance,hb-unknown-member,hb-illegal-generation,hb-drop,leave-drop,commit-drop,commit-notcoord,commit-missing"
 
 func Scenarios(prop string) []gx.Sc {
 	ca := ""
